@@ -200,6 +200,28 @@ def check(case: dict[str, Any]) -> list[tuple[str, str]]:
         if rk == "neg-same":
             if not isinstance(r, service.NegativeResponse) or int(r.response_code) != reply[2] or r.request_service_id != req[0]:
                 out.append((f"C03/neg-same/{tag}/wrong-negative-response", f"{reply.hex()} to {_rq(case)} -> {r!r}"))
+    # The same request object used again for another PDU (a fuzzer that rewrites one RawRequest, a loop that bumps an identifier):
+    # what was learnt about the old bytes must not be applied to the new ones.
+    if not out and isinstance(request, service.RawRequest) and req[0] != 0x3E:
+        try:
+            request.pdu = b"\x3e\x00"
+        except Exception:  # noqa: BLE001
+            return out
+        for rep2, want in ((b"\x7e\x00", "accept"), (bytes([(req[0] + 0x40) & 0xFF]) + req[1:3] + b"\x00", "mismatch"), (bytes([0x7F, req[0], 0x31]), "mismatch")):
+            if rep2[0] in (0x7E,) and want == "mismatch":
+                continue
+            try:
+                parse_pdu(rep2, request)
+                got = "accept"
+            except RequestResponseMismatch:
+                got = "mismatch"
+            except MalformedResponse:
+                got = "malformed"
+            except Exception as e:  # noqa: BLE001
+                got = f"raises-{type(e).__name__}"
+            if got != want:
+                out.append((f"C03/request-object-reused/{got}-instead-of-{want}", f"RawRequest first used for {req.hex()[:20]}, then rewritten to 3e00: parse_pdu({rep2.hex()}) -> {got}"))
+                break
     return out
 
 
